@@ -13,7 +13,7 @@ Complete == R.end = "done"
 OwnReply == Complete => \A k \in 1..Len(R.reqs) : LET q == R.reqs[k] IN q.answered /\ q.err = "" /\ q.tokens = q.want
 \* no lost or duplicated executions
 ExecOnce == Complete => \A k \in 1..Len(R.reqs) : LET q == R.reqs[k] IN
-              /\ q.execs = (IF q.kind \in {"invalid"} THEN 0 ELSE 1)
+              /\ q.execs = (IF q.kind \in {"invalid", "truncated"} THEN 0 ELSE 1)
               /\ (q.kind = "batch" => q.execs2 = 1) /\ (q.kind = "notify" => q.execsn = 1)
 \* server_close() returns once in-flight requests complete, and then every worker of the pool has terminated
 CloseTerminates == (Complete /\ R.closed) => R.close_returned
